@@ -95,11 +95,12 @@ theorem reachR_nf {n : Nat} {s : S} (hr : ReachR n s) : s.a.nf = n := by
   | nops k _ ih => exact ih
   | newItem _ ih => exact ih
   | noYields _ ih => exact ih
+  | setBody b r hb _ ih => exact ih
 
 /-! ## every fibre named anywhere in the state exists -/
 
 def contFid : Cont → Option Fid
-  | .run f | .kill f | .pass2 f => some f
+  | .run f | .kill f | .pass2 f | .brun f | .bkill f => some f
   | .pass1 => none
 
 def mpcFid : MPc → Option Fid
@@ -117,6 +118,8 @@ structure Scope (n : Nat) (s : S) : Prop where
   mpc : ∀ f, mpcFid s.mpc = some f → f < n
   ipc : ∀ i f, ipcFid (s.ipc i) = some f → f < n
   wr : ∀ k, k < s.aq.claimed → s.aq.sent k = true → s.aq.written k < n
+  /-- the calls the scripted bodies have yet to make -/
+  bs : ∀ c ∈ s.bscript, BCallOk n c
 
 /-- the lists of `K`, `kernel.current`: what the scheduler's plain code can do to the scope -/
 structure KScope (n : Nat) (k : K) : Prop where
@@ -179,6 +182,15 @@ theorem returned_current (s : S) (r : Ret) : (returned s r).k.current = s.k.curr
 theorem kscope_returned {n : Nat} {s : S} (h : KScope n s.k) (r : Ret) : KScope n (returned s r).k :=
   kscope_lists h (returned_runq s r) (returned_timerq s r) (returned_current s r)
 
+theorem bodyStep_current (s : S) : (bodyStep s).k.current = s.k.current := by
+  unfold bodyStep; split
+  · exact returned_current _ _
+  · rfl
+  · rfl
+
+theorem kscope_bodyStep {n : Nat} {s : S} (h : KScope n s.k) : KScope n (bodyStep s).k :=
+  kscope_lists h (bodyStep_runq s) (bodyStep_timerq s) (bodyStep_current s)
+
 theorem kscope_bodyOf {n : Nat} {s : S} (h : KScope n s.k) (c : Fid) (hc : c < n) : KScope n (bodyOf s c).k := by
   unfold bodyOf
   split
@@ -189,6 +201,7 @@ theorem kscope_bodyOf {n : Nat} {s : S} (h : KScope n s.k) (c : Fid) (hc : c < n
         (kscope_fibreTimeout (kscope_fibreTimeout h c hc _) c hc _) _
     · exact kscope_returned (s := tok _ { s with k := _ }) (kscope_fibreTimeout h c hc _) _
   · exact kscope_returned h _
+  · exact kscope_bodyStep h
 
 theorem kscope_dispatch {n : Nat} {s : S} (h : KScope n s.k) : KScope n (dispatch s).k := by
   unfold dispatch
@@ -200,31 +213,81 @@ theorem kscope_dispatch {n : Nat} {s : S} (h : KScope n s.k) : KScope n (dispatc
 theorem kscope_afterUpdate {n : Nat} {s : S} (h : KScope n s.k) : KScope n (afterUpdate s).k :=
   kscope_dispatch (s := { s with k := getNextTask (handleTimerq s.k) }) (kscope_getNextTask (kscope_handleTimerq h))
 
-theorem AfterBody.noFid {pc : MPc} (h : AfterBody pc) : mpcFid pc = none := by
-  cases pc <;> first | exact False.elim h | rfl
+/-- the scripted calls still to come name existing fibres, and so does the call the main context is in -/
+def BsOk (n : Nat) (s : S) : Prop := ∀ c ∈ s.bscript, BCallOk n c
 
-theorem kscope_afterDrain {n : Nat} {s : S} (h : KScope n s.k) (c : Cont) (hc : ∀ f, contFid c = some f → f < n) :
-    KScope n (afterDrain s c).k ∧ ∀ f, mpcFid (afterDrain s c).mpc = some f → f < n := by
+structure BPost (n : Nat) (s' : S) : Prop where
+  bs : BsOk n s'
+  mpc : ∀ f, mpcFid s'.mpc = some f → f < n
+
+theorem bpost_finishPass {n : Nat} {s : S} (h : BsOk n s) (v : BitVec 32) : BPost n (finishPass s v) :=
+  ⟨h, fun f hf => by cases hf⟩
+
+theorem bpost_returned {n : Nat} {s : S} (h : BsOk n s) (r : Ret) : BPost n (returned s r) := by
+  unfold returned
+  split
+  · exact bpost_finishPass (by exact h) _
+  · exact ⟨h, fun f hf => by cases hf⟩
+
+theorem bpost_bodyStep {n : Nat} {s : S} (h : BsOk n s) : BPost n (bodyStep s) := by
+  unfold bodyStep
+  split
+  · exact bpost_returned h _
+  · rename_i g r e
+    refine ⟨fun c hc => h c (by rw [e]; exact List.mem_cons_of_mem _ hc), fun f hf => ?_⟩
+    have hf' : some g = some f := hf
+    injection hf' with hf'; subst hf'
+    exact h (.run g) (by rw [e]; exact List.mem_cons_self)
+  · rename_i g r e
+    refine ⟨fun c hc => h c (by rw [e]; exact List.mem_cons_of_mem _ hc), fun f hf => ?_⟩
+    have hf' : some g = some f := hf
+    injection hf' with hf'; subst hf'
+    exact h (.kill g) (by rw [e]; exact List.mem_cons_self)
+
+theorem bpost_bodyOf {n : Nat} {s : S} (h : BsOk n s) (c : Fid) : BPost n (bodyOf s c) := by
+  unfold bodyOf
+  split
+  · exact ⟨h, fun f hf => by cases hf⟩
+  · split <;> exact bpost_returned (by exact h) _
+  · split <;> exact bpost_returned (by exact h) _
+  · exact bpost_returned h _
+  · exact bpost_bodyStep h
+
+theorem bpost_dispatch {n : Nat} {s : S} (h : BsOk n s) : BPost n (dispatch s) := by
+  unfold dispatch
+  split
+  · exact bpost_bodyOf (by exact h) _
+  · exact ⟨h, fun f hf => by cases hf⟩
+
+theorem bpost_afterUpdate {n : Nat} {s : S} (h : BsOk n s) : BPost n (afterUpdate s) :=
+  bpost_dispatch (by exact h)
+
+theorem kscope_afterDrain {n : Nat} {s : S} (h : KScope n s.k) (hb : BsOk n s) (c : Cont) (hc : ∀ f, contFid c = some f → f < n) :
+    KScope n (afterDrain s c).k ∧ BPost n (afterDrain s c) := by
   cases c with
-  | run f => exact ⟨kscope_makeRunnable h f (hc f rfl), fun g hg => by cases hg⟩
+  | run f => exact ⟨kscope_makeRunnable h f (hc f rfl), hb, fun g hg => by cases hg⟩
   | kill f =>
     exact ⟨⟨fun g hg => h.q g (hg.elim (fun e => Or.inl (List.mem_of_mem_erase e)) (fun e => Or.inr (List.mem_of_mem_erase e))), h.cur⟩,
-           fun g hg => by cases hg⟩
+           hb, fun g hg => by cases hg⟩
   | pass1 =>
     simp only [afterDrain]
     split
-    · exact ⟨kscope_afterUpdate h, fun g hg => by rw [(afterBody_afterUpdate s).noFid] at hg; cases hg⟩
+    · exact ⟨kscope_afterUpdate h, bpost_afterUpdate hb⟩
     · rename_i c' hcur
       split
-      · exact ⟨h, fun g hg => by injection hg with hg; subst hg; exact h.cur _ hcur⟩
-      · exact ⟨h, fun g hg => by cases hg⟩
+      · exact ⟨h, hb, fun g hg => by injection hg with hg; subst hg; exact h.cur _ hcur⟩
+      · exact ⟨h, hb, fun g hg => by cases hg⟩
       · exact ⟨kscope_afterUpdate (s := { s with k := { s.k with priv := _ } }) (kscope_lists h rfl rfl rfl),
-               fun g hg => by rw [(afterBody_afterUpdate _).noFid] at hg; cases hg⟩
-      · exact ⟨kscope_afterUpdate h, fun g hg => by rw [(afterBody_afterUpdate s).noFid] at hg; cases hg⟩
+               bpost_afterUpdate (by exact hb)⟩
+      · exact ⟨kscope_afterUpdate h, bpost_afterUpdate hb⟩
   | pass2 c =>
-    refine ⟨kscope_afterUpdate (s := { s with k := makeRunnable s.k c }) (kscope_makeRunnable h c (hc c rfl)), fun g hg => ?_⟩
-    have hg' : mpcFid (afterUpdate { s with k := makeRunnable s.k c }).mpc = some g := hg
-    rw [(afterBody_afterUpdate _).noFid] at hg'; cases hg'
+    exact ⟨kscope_afterUpdate (s := { s with k := makeRunnable s.k c }) (kscope_makeRunnable h c (hc c rfl)),
+           bpost_afterUpdate (by exact hb)⟩
+  | brun g =>
+    exact ⟨kscope_bodyStep (s := brunPre s g) (kscope_makeRunnable h g (hc g rfl)), bpost_bodyStep (s := brunPre s g) hb⟩
+  | bkill g =>
+    refine ⟨kscope_bodyStep (s := bkillPre s g) ?_, bpost_bodyStep (s := bkillPre s g) hb⟩
+    exact ⟨fun f hf => h.q f (hf.elim (fun e => Or.inl (List.mem_of_mem_erase e)) (fun e => Or.inr (List.mem_of_mem_erase e))), h.cur⟩
 
 /-- only a sender about to execute the `fetch_or` of `fibre_run_atomic` has stored a fibre pointer in a claimed slot of the
     atomic run queue -/
@@ -264,8 +327,8 @@ theorem scope_sender {n : Nat} {s s' : S} (h1 : Inv1 s) (h : Scope n s) (i : Nat
     (hk : s'.k = s.k) (hm : s'.mpc = s.mpc)
     (haq : s'.aq = s.aq ∨ ∃ v, s'.aq = step s.aq (.sender i false v))
     (hipc : ∀ j, j ≠ i → s'.ipc j = s.ipc j)
-    (hown : ∀ f, ipcFid (s'.ipc i) = some f → f < n) : Scope n s' := by
-  refine ⟨by rw [hk]; exact h.q, by rw [hk]; exact h.cur, by rw [hm]; exact h.mpc, fun j f hj => ?_, ?_⟩
+    (hown : ∀ f, ipcFid (s'.ipc i) = some f → f < n) (hbs : s'.bscript = s.bscript) : Scope n s' := by
+  refine ⟨by rw [hk]; exact h.q, by rw [hk]; exact h.cur, by rw [hm]; exact h.mpc, fun j f hj => ?_, ?_, by rw [hbs]; exact h.bs⟩
   · by_cases hji : j = i
     · subst hji; exact hown f hj
     · exact h.ipc j f (hipc j hji ▸ hj)
@@ -324,18 +387,18 @@ theorem scope_mainAtomic {n : Nat} {s : S} (h : Scope n s) : Scope n (mainAtomic
     rw [recv_claimed] at hk; rw [recv_sent] at hs; rw [recv_written]; exact h.wr k hk hs
   unfold mainAtomic
   split
-  · exact ⟨h.q, h.cur, (fun f hf => by cases hf), h.ipc, h.wr⟩
-  · rename_i c hpc; exact ⟨h.q, h.cur, fun f hf => h.mpc f (by rw [hpc]; exact hf), h.ipc, wrRecv⟩
-  · rename_i c hpc; exact ⟨h.q, h.cur, fun f hf => h.mpc f (by rw [hpc]; exact hf), h.ipc, wrRecv⟩
-  · exact ⟨h.q, h.cur, (fun f hf => by cases hf), h.ipc, h.wr⟩
-  · exact ⟨h.q, h.cur, (fun f hf => by cases hf), h.ipc, h.wr⟩
-  · exact ⟨h.q, h.cur, (fun f hf => by cases hf), h.ipc, h.wr⟩
-  · exact ⟨h.q, h.cur, (fun f hf => by cases hf), h.ipc, h.wr⟩
+  · exact ⟨h.q, h.cur, (fun f hf => by cases hf), h.ipc, h.wr, h.bs⟩
+  · rename_i c hpc; exact ⟨h.q, h.cur, fun f hf => h.mpc f (by rw [hpc]; exact hf), h.ipc, wrRecv, h.bs⟩
+  · rename_i c hpc; exact ⟨h.q, h.cur, fun f hf => h.mpc f (by rw [hpc]; exact hf), h.ipc, wrRecv, h.bs⟩
+  · exact ⟨h.q, h.cur, (fun f hf => by cases hf), h.ipc, h.wr, h.bs⟩
+  · exact ⟨h.q, h.cur, (fun f hf => by cases hf), h.ipc, h.wr, h.bs⟩
+  · exact ⟨h.q, h.cur, (fun f hf => by cases hf), h.ipc, h.wr, h.bs⟩
+  · exact ⟨h.q, h.cur, (fun f hf => by cases hf), h.ipc, h.wr, h.bs⟩
   · exact h
 
-theorem scope_of_parts {n : Nat} {s s' : S} (h : Scope n s) (hk : KScope n s'.k) (hm : ∀ f, mpcFid s'.mpc = some f → f < n)
+theorem scope_of_parts {n : Nat} {s s' : S} (h : Scope n s) (hk : KScope n s'.k) (hm : BPost n s')
     (hi : s'.ipc = s.ipc) (ha : s'.aq = s.aq) : Scope n s' :=
-  ⟨hk.q, hk.cur, hm, by rw [hi]; exact h.ipc, by rw [ha]; exact h.wr⟩
+  ⟨hk.q, hk.cur, hm.mpc, by rw [hi]; exact h.ipc, by rw [ha]; exact h.wr, hm.bs⟩
 
 theorem scope_mainPlain {n : Nat} {s : S} (h1 : Inv1 s) (h : Scope n s) : Scope n (mainPlain s) := by
   have hks : KScope n s.k := ⟨h.q, h.cur⟩
@@ -346,14 +409,14 @@ theorem scope_mainPlain {n : Nat} {s : S} (h1 : Inv1 s) (h : Scope n s) : Scope 
     | next t =>
       simp only [startCall]; unfold startNext
       split
-      · exact scope_of_parts h (kscope_lists hks rfl rfl rfl) (fun f hf => by cases hf) rfl rfl
-      · exact scope_of_parts h (kscope_lists hks rfl rfl rfl) (fun f hf => by cases hf) rfl rfl
-    | run f => exact scope_of_parts h hks (fun g hg => h.mpc g (by rw [hpc]; exact hg)) rfl rfl
-    | kill f => exact scope_of_parts h hks (fun g hg => h.mpc g (by rw [hpc]; exact hg)) rfl rfl
+      · exact scope_of_parts h (kscope_lists hks rfl rfl rfl) ⟨h.bs, fun f hf => by cases hf⟩ rfl rfl
+      · exact scope_of_parts h (kscope_lists hks rfl rfl rfl) ⟨h.bs, fun f hf => by cases hf⟩ rfl rfl
+    | run f => exact scope_of_parts h hks ⟨h.bs, fun g hg => h.mpc g (by rw [hpc]; exact hg)⟩ rfl rfl
+    | kill f => exact scope_of_parts h hks ⟨h.bs, fun g hg => h.mpc g (by rw [hpc]; exact hg)⟩ rfl rfl
   · split
-    · exact scope_of_parts h (kscope_dispatch hks) (fun f hf => by rw [(afterBody_dispatch s).noFid] at hf; cases hf)
+    · exact scope_of_parts h (kscope_dispatch hks) (bpost_dispatch h.bs)
         (frame_dispatch ⟨rfl, rfl, rfl, rfl⟩).ipc (frame_dispatch ⟨rfl, rfl, rfl, rfl⟩).aq
-    · exact scope_of_parts h hks (fun f hf => by cases hf) rfl rfl
+    · exact scope_of_parts h hks ⟨h.bs, fun f hf => by cases hf⟩ rfl rfl
   · rename_i c hpc
     split
     · -- make_runnable(*f): the pointer read is the recorded payload of a sent ticket
@@ -366,37 +429,42 @@ theorem scope_mainPlain {n : Nat} {s : S} (h1 : Inv1 s) (h : Scope n s) : Scope 
         have := hrv.1
         exact h.wr k (by omega) hrv.2.2.2
       refine ⟨(kscope_makeRunnable hks _ hv).q, (kscope_makeRunnable hks _ hv).cur,
-              fun f hf => h.mpc f (by rw [hpc]; exact hf), h.ipc, ?_⟩
+              fun f hf => h.mpc f (by rw [hpc]; exact hf), h.ipc, ?_, h.bs⟩
       intro k' hk' hs'
       have hk2 : k' < (step s.aq (.recv false)).claimed := hk'
       have hs2 : (step s.aq (.recv false)).sent k' = true := hs'
       rw [recv_claimed] at hk2; rw [recv_sent] at hs2
       show (step s.aq (.recv false)).written k' < n
       rw [recv_written]; exact h.wr k' hk2 hs2
-    · have := kscope_afterDrain (s := s) hks c (fun f hf => h.mpc f (by rw [hpc]; exact hf))
+    · have := kscope_afterDrain (s := s) hks h.bs c (fun f hf => h.mpc f (by rw [hpc]; exact hf))
       exact scope_of_parts h this.1 this.2 (frame_afterDrain ⟨rfl, rfl, rfl, rfl⟩ c).ipc (frame_afterDrain ⟨rfl, rfl, rfl, rfl⟩ c).aq
   · rename_i c hpc
-    exact scope_of_parts h hks (fun f hf => h.mpc f (by rw [hpc]; exact hf)) rfl rfl
+    exact scope_of_parts h hks ⟨h.bs, fun f hf => h.mpc f (by rw [hpc]; exact hf)⟩ rfl rfl
   · have hk' : KScope n (resetPriv s).k := by unfold resetPriv; split <;> exact kscope_lists hks rfl rfl rfl
-    exact scope_of_parts h (kscope_afterUpdate hk') (fun f hf => by rw [(afterBody_afterUpdate _).noFid] at hf; cases hf)
+    exact scope_of_parts h (kscope_afterUpdate hk') (bpost_afterUpdate (by unfold resetPriv; split <;> exact h.bs))
       (frame_afterUpdate (resetPriv_same s)).ipc (frame_afterUpdate (resetPriv_same s)).aq
   · split
-    · exact scope_of_parts h hks (fun f hf => by cases hf) rfl rfl
-    · exact scope_of_parts h (kscope_returned hks _) (fun f hf => by rw [(afterBody_returned s _).noFid] at hf; cases hf)
+    · exact scope_of_parts h hks ⟨h.bs, fun f hf => by cases hf⟩ rfl rfl
+    · exact scope_of_parts h (kscope_returned hks _) (bpost_returned h.bs _)
         (frame_returned ⟨rfl, rfl, rfl, rfl⟩ _).ipc (frame_returned ⟨rfl, rfl, rfl, rfl⟩ _).aq
-  · exact scope_of_parts h hks (fun f hf => by cases hf) rfl rfl
-  · exact scope_of_parts h hks (fun f hf => by cases hf) rfl rfl
+  · exact scope_of_parts h hks ⟨h.bs, fun f hf => by cases hf⟩ rfl rfl
+  · exact scope_of_parts h hks ⟨h.bs, fun f hf => by cases hf⟩ rfl rfl
   · exact h
+
+theorem senderAtomic_bscript (i : Nat) (s : S) : (senderAtomic i s).bscript = s.bscript := by
+  unfold senderAtomic; split <;> (try split) <;> rfl
+theorem senderPlain_bscript (i : Nat) (s : S) : (senderPlain i s).bscript = s.bscript := by
+  unfold senderPlain; split <;> (try split) <;> rfl
 
 theorem reachR_scope {n : Nat} {s : S} (hr : ReachR n s) : Scope n s := by
   induction hr with
   | init d kinds budgets h1 h32 hn =>
     exact ⟨(fun f hf => by rcases hf with hf | hf <;> cases hf), (fun c hc => by cases hc), (fun f hf => by cases hf),
-           (fun i f hf => by cases hf), fun k hk _ => absurd hk (Nat.not_lt_zero k)⟩
+           (fun i f hf => by cases hf), (fun k hk _ => absurd hk (Nat.not_lt_zero k)), fun c hc => by cases hc⟩
   | mainPlain hr _ ih => exact scope_mainPlain (reach_inv1 (reachR_reach hr)) ih
   | mainAtomic _ _ ih => exact scope_mainAtomic ih
   | enterMain c _ _ hidle hc ih =>
-    refine ⟨ih.q, ih.cur, fun f hf => ?_, ih.ipc, ih.wr⟩
+    refine ⟨ih.q, ih.cur, fun f hf => ?_, ih.ipc, ih.wr, ih.bs⟩
     cases c with
     | next t => cases hf
     | run g => injection hf with hf; subst hf; exact hc
@@ -405,29 +473,32 @@ theorem reachR_scope {n : Nat} {s : S} (hr : ReachR n s) : Scope n s := by
     have hnf := reachR_nf hr
     have hpos := (reachR_monB hr).nfpos
     refine scope_sender (reach_inv1 (reachR_reach hr)) ih i (by omega) (senderPlain_k i _) (senderPlain_mpc i _) (senderPlain_aq i _)
-      (fun j hj => senderPlain_ipc_other i j _ hj) (fun f hf => ?_)
+      (fun j hj => senderPlain_ipc_other i j _ hj) (fun f hf => ?_) (senderPlain_bscript i _)
     rcases ipcFid_senderPlain i _ f hf with e | e
     · exact ih.ipc i f e
     · subst e; show 0 < n; omega
   | senderAtomic i hi hr ih =>
     exact scope_sender (reach_inv1 (reachR_reach hr)) ih i (by omega) (senderAtomic_k i _) (senderAtomic_mpc i _) (senderAtomic_aq i _)
-      (fun j hj => senderAtomic_ipc_other i j _ hj) (fun f hf => ih.ipc i f (ipcFid_senderAtomic i _ f hf))
+      (fun j hj => senderAtomic_ipc_other i j _ hj) (fun f hf => ih.ipc i f (ipcFid_senderAtomic i _ f hf)) (senderAtomic_bscript i _)
   | enterSender i c hi hr hidle hc ih =>
-    refine scope_sender (reach_inv1 (reachR_reach hr)) ih i (by omega) rfl rfl (Or.inl rfl) (fun j hj => upd_other _ _ _ _ hj) (fun f hf => ?_)
+    refine scope_sender (reach_inv1 (reachR_reach hr)) ih i (by omega) rfl rfl (Or.inl rfl) (fun j hj => upd_other _ _ _ _ hj) (fun f hf => ?_) rfl
     have hf' : ipcFid (upd _ i (startPc c) i) = some f := hf
     rw [upd_same] at hf'
     cases c with
     | runAtomic g => injection hf' with hf'; subst hf'; exact hc
     | eventSend st => cases hf'
-  | tok t _ ih => exact ⟨ih.q, ih.cur, ih.mpc, ih.ipc, ih.wr⟩
-  | nops k _ ih => exact ⟨ih.q, ih.cur, ih.mpc, ih.ipc, ih.wr⟩
-  | newItem _ ih => exact ⟨ih.q, ih.cur, ih.mpc, ih.ipc, ih.wr⟩
-  | noYields _ ih => exact ⟨ih.q, ih.cur, ih.mpc, ih.ipc, ih.wr⟩
+  | tok t _ ih => exact ⟨ih.q, ih.cur, ih.mpc, ih.ipc, ih.wr, ih.bs⟩
+  | nops k _ ih => exact ⟨ih.q, ih.cur, ih.mpc, ih.ipc, ih.wr, ih.bs⟩
+  | newItem _ ih => exact ⟨ih.q, ih.cur, ih.mpc, ih.ipc, ih.wr, ih.bs⟩
+  | noYields _ ih => exact ⟨ih.q, ih.cur, ih.mpc, ih.ipc, ih.wr, ih.bs⟩
+  | setBody b r hb _ ih => exact ⟨ih.q, ih.cur, ih.mpc, ih.ipc, ih.wr, hb⟩
 
 /-! ## the ages of outstanding requests against their positions in the run queue -/
 
+/-- control locations of a pass after the head of the run queue has been popped and discharged -/
 def PastPop : MPc → Prop
   | .hRecv | .hRecvd | .hRel | .hReld | .wake | .woke _ => True
+  | .recv c | .recvd c | .rel c | .reld c => BodyCont c
   | _ => False
 
 /-- the drain loop of a pass has received NULL (and the plain code that follows has not run yet) -/
@@ -577,6 +648,15 @@ theorem monK_returned {t : S} (h : KPost t) (hd : t.a.disturbed = false) (r : Re
   · refine monK_of_kpost (kpost_congr h rfl rfl rfl rfl) (fun e he => by cases he) ?_
     rintro (⟨c, hc, _⟩ | hc | hc) <;> cases hc
 
+theorem monK_bodyStep {t : S} (h : KPost t) (hd : t.a.disturbed = false) : MonK (bodyStep t) := by
+  unfold bodyStep
+  split
+  · exact monK_returned h hd _
+  · refine monK_of_kpost (kpost_congr h rfl rfl rfl rfl) (fun e he => by cases he) ?_
+    rintro (⟨c, hc, _⟩ | hc | hc) <;> cases hc
+  · refine monK_of_kpost (kpost_congr h rfl rfl rfl rfl) (fun e he => by cases he) ?_
+    rintro (⟨c, hc, _⟩ | hc | hc) <;> cases hc
+
 theorem monK_bodyOf {t : S} (h : KPost t) (hd : t.a.disturbed = false) (c : Fid) : MonK (bodyOf t c) := by
   unfold bodyOf
   split
@@ -597,6 +677,7 @@ theorem monK_bodyOf {t : S} (h : KPost t) (hd : t.a.disturbed = false) (c : Fid)
         simp only [tok_k]; rw [runq_fibreTimeout]
       · exact hd
   · exact monK_returned h hd _
+  · exact monK_bodyStep h hd
 
 /-- discharging a fibre removes obligations, never adds any -/
 theorem kpost_discharge {t : S} (h : KPost t) (c : Fid) : KPost (tok (.disp c) (emit (.dispatched c) { t with dispatchedNow := true })) := by
@@ -692,8 +773,38 @@ theorem bound_makeRunnable {t : S} {g : Fid} {f : Fid} {a d : Nat} (h : Bound t 
     Bound { t with k := makeRunnable t.k g } f a d :=
   ⟨(mem_runq_makeRunnable g f).mpr (Or.inl h.1), by show (makeRunnable t.k g).runq.idxOf f + a + d ≤ _; rw [idxOf_makeRunnable h.1]; exact h.2⟩
 
+theorem atBegin_killed (a : A) (f : Fid) : (a.step (.killed f)).atBegin = a.atBegin.filter (· ≠ f) := by
+  simp only [A.step]; split <;> rfl
+
+theorem disturbed_killed (a : A) (f : Fid) : (a.step (.killed f)).disturbed = a.disturbed := by
+  simp only [A.step]; split <;> rfl
+
+theorem kpost_brunPre {t : S} (h : MonK t) (hpp : PastPop t.mpc) (g : Fid) : KPost (brunPre t g) :=
+  ⟨fun f a hfa hp => bound_makeRunnable (h.k1 f a hfa hp), fun f a hfa hbg => bound_makeRunnable (h.k2 hpp f a hfa hbg)⟩
+
+theorem kpost_bkillPre {t : S} (h : MonK t) (hpp : PastPop t.mpc) (g : Fid) : KPost (bkillPre t g) := by
+  have erase_bound : ∀ f a d, f ≠ g → Bound t f a d → Bound (bkillPre t g) f a d := by
+    intro f a d hfg hbd
+    refine ⟨(List.mem_erase_of_ne hfg).mpr hbd.1, ?_⟩
+    show (t.k.runq.erase g).idxOf f + a + d ≤ (t.a.step (.killed g)).nf
+    rw [nf_step]
+    have := idxOf_erase_le hfg t.k.runq hbd.1
+    have := hbd.2
+    omega
+  refine ⟨fun f a hfa hp => ?_, fun f a hfa hbg => ?_⟩
+  · have hfa' : (f, a) ∈ (t.a.step (.killed g)).owed := hfa
+    rw [owed_killed] at hfa'
+    have hm := List.mem_filter.mp hfa'
+    exact erase_bound f a 1 (by simpa using hm.2) (h.k1 f a hm.1 hp)
+  · have hfa' : (f, a) ∈ (t.a.step (.killed g)).owed := hfa
+    have hbg' : f ∈ (t.a.step (.killed g)).atBegin := hbg
+    rw [owed_killed] at hfa'
+    rw [atBegin_killed] at hbg'
+    have hm := List.mem_filter.mp hfa'
+    exact erase_bound f a 2 (by simpa using hm.2) (h.k2 hpp f a hm.1 (List.mem_filter.mp hbg').1)
+
 theorem monK_afterDrain {n : Nat} {t : S} (h : MonK t) (hb : MonB t.a) (hq : QOk t.k) (hsc : Scope n t) (hn : t.a.nf = n)
-    (hdd : DrainDone t) (c : Cont) (hcf : ∀ f, contFid c = some f → f < n) : MonK (afterDrain t c) := by
+    (hdd : DrainDone t) (c : Cont) (hpb : t.mpc = .recvd c) (hcf : ∀ f, contFid c = some f → f < n) : MonK (afterDrain t c) := by
   have scq : ∀ f, (f ∈ t.k.runq ∨ f ∈ t.k.timerq) → f < t.a.nf := by rw [hn]; exact hsc.q
   cases c with
   | run f =>
@@ -730,6 +841,11 @@ theorem monK_afterDrain {n : Nat} {t : S} (h : MonK t) (hb : MonB t.a) (hq : QOk
       (fun g a hga hp => bound_makeRunnable (h.k1 g a hga hp))
       (fun g hg => (mem_runq_makeRunnable c g).mpr (Or.inl (h.k5 hdd g hg)))
       (qok_makeRunnable hq c) (by rw [hn]; exact hks.q) hb.dist
+  | brun g => exact monK_bodyStep (kpost_brunPre h (hpb ▸ trivial) g) hb.dist
+  | bkill g =>
+    refine monK_bodyStep (kpost_bkillPre h (hpb ▸ trivial) g) ?_
+    show (t.a.step (.killed g)).disturbed = false
+    rw [disturbed_killed]; exact hb.dist
 
 /-- the same scheduler lists and monitor entries, at a control location of the same phase -/
 theorem monK_same {s s' : S} (h : MonK s) (hr : s'.k.runq = s.k.runq) (ho : s'.a.owed = s.a.owed) (hat : s'.a.atBegin = s.a.atBegin)
@@ -783,7 +899,7 @@ theorem monK_mainAtomic {s : S} (hr : Reach s) (hq : Quiet s) (hb : MonB s.a) (h
   · -- the drain loop's receive
     rename_i c hpc
     rw [hpc] at hma
-    refine ⟨h.k1, fun hp => False.elim hp, (fun hf => by cases hf), fun hd f hf => ?_⟩
+    refine ⟨h.k1, fun hp => h.k2 (by rw [hpc]; exact hp), (fun hf => by cases hf), fun hd f hf => ?_⟩
     rcases hd with ⟨c', _, hidle⟩ | hc | hc
     · have hidle' : (step s.aq (.recv false)).recv = .idle := hidle
       have hemp := drain_complete h1 (reach_owned hr).1 hq hma hidle'
@@ -791,7 +907,7 @@ theorem monK_mainAtomic {s : S} (hr : Reach s) (hq : Quiet s) (hb : MonB s.a) (h
     · cases hc
     · cases hc
   · rename_i c hpc
-    refine ⟨h.k1, fun hp => False.elim hp, (fun hf => by cases hf), fun hd => ?_⟩
+    refine ⟨h.k1, fun hp => h.k2 (by rw [hpc]; exact hp), (fun hf => by cases hf), fun hd => ?_⟩
     rcases hd with ⟨c', hc, _⟩ | hc | hc <;> cases hc
   · rename_i hpc
     exact ⟨h.k1, fun hp => False.elim hp, (fun hf => by cases hf), fun _ => h.k5 (Or.inr (Or.inl hpc))⟩
@@ -844,14 +960,15 @@ theorem monK_mainPlain {n : Nat} {s : S} (hr : Reach s) (hb : MonB s.a) (hsc : S
     rename_i c hpc
     rw [hpc] at hma
     split
-    · refine ⟨fun g a hga hp => bound_makeRunnable (h.k1 g a hga hp), fun hp => False.elim hp, (fun hf => by cases hf),
+    · refine ⟨fun g a hga hp => bound_makeRunnable (h.k1 g a hga hp),
+              fun hp g a hga hbg => bound_makeRunnable (h.k2 (by rw [hpc]; exact hp) g a hga hbg), (fun hf => by cases hf),
               fun hd => absurd hd (notDD _ (by simp) (by simp) (by simp))⟩
     · rename_i hnh
       rcases hma with hma | ⟨sl, k, hrv⟩
-      · exact monK_afterDrain h hb hq2 hsc hn (Or.inl ⟨c, hpc, hma⟩) c (fun f hf => hsc.mpc f (by rw [hpc]; exact hf))
+      · exact monK_afterDrain h hb hq2 hsc hn (Or.inl ⟨c, hpc, hma⟩) c hpc (fun f hf => hsc.mpc f (by rw [hpc]; exact hf))
       · exact absurd hrv (hnh sl k)
   · rename_i c hpc
-    exact ⟨h.k1, fun hp => False.elim hp, (fun hf => by cases hf), fun hd => absurd hd (notDD _ (by simp) (by simp) (by simp))⟩
+    exact ⟨h.k1, fun hp => h.k2 (by rw [hpc]; exact hp), (fun hf => by cases hf), fun hd => absurd hd (notDD _ (by simp) (by simp) (by simp))⟩
   · -- taintFd
     rename_i hpc
     have hdd : DrainDone s := Or.inr (Or.inr hpc)
@@ -906,5 +1023,6 @@ theorem reachR_monK {n : Nat} {s : S} (hr : ReachR n s) : MonK s := by
   | nops k _ ih => exact monK_same ih rfl rfl rfl rfl (fun h => h) (fun h => h) (fun h => h)
   | newItem _ ih => exact monK_same ih rfl rfl rfl rfl (fun h => h) (fun h => h) (fun h => h)
   | noYields _ ih => exact monK_same ih rfl rfl rfl rfl (fun h => h) (fun h => h) (fun h => h)
+  | setBody b r hb _ ih => exact monK_same ih rfl rfl rfl rfl (fun h => h) (fun h => h) (fun h => h)
 
 end Librfn.Isr.L
